@@ -417,6 +417,25 @@ def real_view(dx):
     for a, b in cg.edges():
         v["cg"].append((mkey(a), mkey(b)))
     v["cgNodes"] = sorted(mkey(n) for n in cg.nodes())
+    # every field / method / class object the analysis refers to belongs to a DEX it holds
+    own_f, own_m, own_c = set(), set(), set()
+    for vm in dx.vms:
+        for c in vm.get_classes():
+            own_c.add(id(c))
+            own_f.update(id(f) for f in c.get_fields())
+            own_m.update(id(m_) for m_ in c.get_methods())
+    for name, ca in dx.classes.items():
+        if not ca.is_external() and id(ca.get_vm_class()) not in own_c:
+            bad.append(("foreign-class-object", name))
+        for fa_ in ca.get_fields():
+            if id(fa_.get_field()) not in own_f:
+                bad.append(("foreign-field-object", "FieldAnalysis in " + name, fkey(fa_.get_field())))
+    for m, ma in dx.methods.items():
+        if not ma.is_external() and id(m) not in own_m:
+            bad.append(("foreign-method-object", mkey(m)))
+        for _, f, off in list(ma.get_xref_read()) + list(ma.get_xref_write()):
+            if id(f) not in own_f:
+                bad.append(("foreign-field-object", "listed by method " + repr(mkey(m)), fkey(f)))
     # what Analysis.get_field_analysis(f) reports for every declared field
     fa = {}
     for vm in dx.vms:
@@ -1076,6 +1095,90 @@ def dup_check(dx, prop):
     return out
 
 
+# --------------------------------------------------------------------------- reuse across analyses (C13, C14, C15)
+# Parsed DEX objects are kept and 2..3 Analysis objects are built from overlapping selections of them:
+# the same object again, a re-parsed copy of a sibling, or a different sibling that declares the same
+# classes with other bodies (and fewer fields); create_xref() runs on each.  Every Analysis is judged on
+# its own by the usual oracle computed from exactly the DEX files it holds, and every field / method /
+# class object it refers to must belong to one of ITS DEX objects (real_view's foreign-* checks).
+
+def make_variant(d, seed):
+    """the same classes with other bodies: a seeded sub-list of every method's instructions, some fields dropped"""
+    import copy
+    import random
+    r = random.Random(seed)
+    q = copy.deepcopy(d)
+    for c in q["classes"]:
+        c["fields"] = [f for f in c["fields"] if r.random() < 0.7]
+        for m in c["methods"]:
+            if m["code"] is not None:
+                m["code"] = [it for it in m["code"][:-1] if r.random() < 0.6] + [m["code"][-1]]
+    return q
+
+
+def gen_reuse(rng, variant):
+    prog = gen_program(rng, variant=variant)
+    while len(prog) < 2:
+        prog = gen_program(rng, variant=variant)
+    n = len(prog)
+    first = list(range(n))
+    rng.shuffle(first)
+    scen = [[[i, "same", 0] for i in first]]
+    for _ in range(rng.choice((1, 1, 2))):
+        sel = [i for i in range(n) if rng.random() < 0.8] or [0]
+        rng.shuffle(sel)
+        a = []
+        for i in sel:
+            mode = rng.choice(("same", "same", "reparse", "reparse", "variant"))
+            a.append([i, mode, rng.randrange(1, 1 << 30) if mode == "variant" else 0])
+        if all(x[1] == "same" for x in a) and len(a) > 1:
+            a[-1][1] = "reparse"
+        scen.append(a)
+    return prog, scen
+
+
+def reuse_work(args):
+    from harness import xref_oracle as O
+    prop, idx, prog, scen = args
+    sections = PROP_SECTIONS[prop]
+    st = {"reuse_cases": 1}
+    reqs, real, fails = [], [], []
+    try:
+        built = [build_dex(d) for d in prog]
+        base = load_vms([b for b, _ in built])
+        for k, a in enumerate(scen):
+            vms, descs, pools = [], [], []
+            for i, mode, seed in a:
+                st["reuse_" + mode] = st.get("reuse_" + mode, 0) + 1
+                if mode == "same":
+                    vms.append(base[i]); descs.append(prog[i]); pools.append(built[i][1])
+                elif mode == "reparse":
+                    vms.append(load_vms([built[i][0]])[0]); descs.append(prog[i]); pools.append(built[i][1])
+                else:
+                    dv = make_variant(prog[i], seed)
+                    data, pool = build_dex(dv)
+                    vms.append(load_vms([data])[0]); descs.append(dv); pools.append(pool)
+            case = {"prog": prog, "reuse": scen, "analysis": k}
+            try:
+                res = real_view(analyse_real(vms))
+            except Exception as e:  # noqa
+                fails.append((case, "analysis #%d over reused DEX objects raises %s" % (k + 1, type(e).__name__), None, "", str(e)[:200]))
+                continue
+            fl = flat(descs, pools)
+            I = Interner()
+            reqs.append(request(fl, I)); real.append(real_line(res, I, sections))
+            v, bad, fa = res
+            e = O.expected(fl)
+            found = (O.check_c13(e, v, bad) if prop == "C13" else O.check_c14(e, v, bad, fa) if prop == "C14"
+                     else O.check_c15(e, v, bad) if prop == "C15" else [])
+            for what, key, rel, detail in found[:3]:
+                fails.append((case, what + " (analysis #%d of %d built from kept / re-parsed / variant DEX objects)" % (k + 1, len(scen)),
+                              key, rel, detail))
+    except Exception as e:  # noqa
+        fails.append(({"prog": prog, "reuse": scen}, "harness error " + type(e).__name__, None, "", str(e)[:200]))
+    return idx, reqs, real, fails, st
+
+
 # probes of histories the random stream does not generate; each is one fixed case with a precise key
 def history_probes():
     def m(name, code):
@@ -1124,7 +1227,7 @@ def load_corpus_full(prop):
 
 
 def load_corpus(prop):
-    return [(fn, c["prog"]) for fn, c in load_corpus_full(prop) if "history" not in c and "adds" not in c]
+    return [(fn, c["prog"]) for fn, c in load_corpus_full(prop) if "history" not in c and "adds" not in c and "reuse" not in c]
 
 
 def shipped_cases(repo, quick):
@@ -1239,6 +1342,15 @@ def run_property(ck, prop):
                 hcases.append(("hist:%d" % i, hp, od, hh))
         hres = pool.map(history_work, [(prop, i, p, od, hh) for i, (_, p, od, hh) in enumerate(hcases)], chunksize=8)
         pres = pool.map(probe_work, history_probes(), chunksize=1) if prop == "C13" else []
+        nreuse = 0 if prop == "C16" else (2500 if big else 250)
+        rcases = []
+        for fn, cp in load_corpus_full(prop):
+            if "reuse" in cp:
+                rcases.append(("corpus:" + fn, cp["prog"], cp["reuse"]))
+        for i in range(nreuse):
+            rp, rs = gen_reuse(ck.rng, i)
+            rcases.append(("reuse:%d" % i, rp, rs))
+        rres = pool.map(reuse_work, [(prop, i, p_, s_) for i, (_, p_, s_) in enumerate(rcases)], chunksize=4)
         ndup = 0 if prop not in ("C13", "C15") else (4000 if big else 400)
         dcases = []
         for fn, cp in load_corpus_full(prop):
@@ -1273,6 +1385,15 @@ def run_property(ck, prop):
         nviews += 1
         for case, what, key, exp, obs in fails:
             ck.fail(dict(case, name=hcases[idx][0]), what, key, exp, obs)
+        for k, v in st.items():
+            dist[k] = dist.get(k, 0) + v
+    for idx, rq, rl, fails, st in rres:
+        for a, b in zip(rq, rl):
+            reqs.append(a); real.append(b)
+            req2case[a] = {"prog": rcases[idx][1], "reuse": rcases[idx][2], "name": rcases[idx][0]}
+        nviews += len(rq)
+        for case, what, key, exp, obs in fails:
+            ck.fail(dict(case, name=rcases[idx][0]), what, key, exp, obs)
         for k, v in st.items():
             dist[k] = dist.get(k, 0) + v
     for idx, fails, st in dres:
@@ -1327,7 +1448,13 @@ def replay_case(ck, rp, prop):
     from harness import xref_oracle as O
     c = rp.get("case") or rp.get("first_divergence", {}).get("case") or {}
     print("replay", {k: v for k, v in c.items() if k != "prog"})
-    if "prog" in c and "adds" in c:
+    if "prog" in c and "reuse" in c:
+        print("reuse across analyses:", c["reuse"], "failing analysis index", c.get("analysis"))
+        r = reuse_work((prop, 0, c["prog"], c["reuse"]))
+        for f in r[3]:
+            print("  analysis #%s:" % (f[0].get("analysis", 0) + 1), f[1][:150], f[2], f[3], f[4])
+        print("  statistics:", r[4])
+    elif "prog" in c and "adds" in c:
         print("duplicate-class case:", c.get("duplicate"), "adds", c["adds"])
         r = dup_work((prop, 0, c["prog"], c["adds"], c.get("duplicate", "corpus")))
         for f in r[1]:
